@@ -411,6 +411,154 @@ func c14One(r *core.Rec, ex *c14Exprs, recv any, recvKind, s string, patterns []
 	}
 }
 
+// c14LongCases: strings whose lengths straddle the sizes at which an implementation could switch algorithm or buffer
+// (15..17, 31..33, 63..65, 127..129, 255..257, 1023..1025, 4095..4097 characters) in six textures: ASCII only, one
+// non-ASCII character first / in the middle / last, every character non-ASCII, a character beyond the BMP last.
+type c14Long struct {
+	name string
+	rs   []rune
+}
+
+func c14LongCases(tier string) []c14Long {
+	lens := []int{15, 16, 17, 31, 32, 33, 63, 64, 65, 127, 128, 129, 255, 256, 257, 1023, 1024, 1025}
+	if tier == "thorough" {
+		lens = append(lens, 2047, 2048, 2049, 4095, 4096, 4097, 65535, 65536, 65537)
+	}
+	var out []c14Long
+	for _, n := range lens {
+		for _, tx := range []string{"ascii", "nonascii-first", "nonascii-mid", "nonascii-last", "all-nonascii", "astral-last"} {
+			rs := make([]rune, n)
+			for k := range rs {
+				rs[k] = rune('a' + k%3) // a b c a b c ...: patterns recur, so a search has to look at every position
+				if tx == "all-nonascii" {
+					rs[k] = []rune{'é', '€', 'ü'}[k%3]
+				}
+			}
+			switch tx {
+			case "nonascii-first":
+				rs[0] = 'é'
+			case "nonascii-mid":
+				rs[n/2] = '€'
+			case "nonascii-last":
+				rs[n-1] = 'é'
+			case "astral-last":
+				rs[n-1] = '😀'
+			}
+			out = append(out, c14Long{fmt.Sprintf("len=%d.%s", n, tx), rs})
+		}
+	}
+	return out
+}
+
+func c14LongOne(r *core.Rec, ex *c14Exprs, lc c14Long) {
+	rs := lc.rs
+	s := string(rs)
+	n := int64(len(rs))
+	recv := system.String(s)
+	ev := func(e lib.Res, env map[string]any) sOut {
+		env["s"] = recv
+		o := c14Out(lib.EvalOpts(e, nil, lib.EnvOpts(env)...))
+		r.Eval()
+		if o.kind == "string" && !utf8.ValidString(o.s) {
+			o.kind = "invalid-utf8"
+		}
+		return o
+	}
+	fail := func(fn, argc, d string, w core.W) {
+		w["s_len"] = n
+		w["texture"] = lc.name
+		r.Fail(fmt.Sprintf("%s|long.%s|%s|%s", fn, lc.name[strings.Index(lc.name, ".")+1:], argc, d), w)
+	}
+	r.State("recv|long." + lc.name)
+	if o := ev(ex.length, map[string]any{}); !(o.kind == "int" && o.i == n) {
+		fail("length", "-", "got="+o.disc()+"|value!=ref", core.W{"got": o.res.String(), "want": n})
+	}
+	oc := ev(ex.toChars, map[string]any{})
+	okc := oc.kind == "multi" && oc.n == int(n)
+	if okc {
+		for k, it := range oc.res.Coll {
+			if v, ok := it.(system.String); !ok || string(v) != string(rs[k]) {
+				okc = false
+			}
+		}
+	}
+	if !okc {
+		fail("toChars", "-", "got="+oc.disc()+"|value!=ref", core.W{"got_count": len(oc.res.Coll), "want_count": n})
+	}
+	for _, c := range []struct {
+		fn string
+		e  lib.Res
+		f  func(rune) rune
+	}{{"upper", ex.upper, unicode.ToUpper}, {"lower", ex.lower, unicode.ToLower}} {
+		want := make([]rune, len(rs))
+		for k, ch := range rs {
+			want[k] = c.f(ch)
+		}
+		if o := ev(c.e, map[string]any{}); !(o.kind == "string" && o.s == string(want)) {
+			fail(c.fn, "-", "got="+o.disc()+"|value!=ref", core.W{"got_len": len([]rune(o.s))})
+		}
+	}
+	pos := []int64{0, 1, n/2 - 1, n / 2, n/2 + 1, n - 2, n - 1, n, n + 1}
+	for _, st := range pos {
+		inRange := st >= 0 && st < n
+		o := ev(ex.sub1, map[string]any{"i": system.Integer(st)})
+		if inRange && !(o.kind == "string" && o.s == string(rs[st:])) || !inRange && o.kind != "empty" {
+			fail("substring", "start="+posClass(st, n), "got="+o.disc()+"|value!=ref", core.W{"start": st, "got_len": len([]rune(o.s))})
+		}
+		if !inRange {
+			continue
+		}
+		for _, ln := range []int64{1, 2, n/2 - 1, n / 2, n - st - 1, n - st, n - st + 1, n, math.MaxInt32} {
+			if ln <= 0 {
+				continue
+			}
+			end := st + ln
+			if end > n {
+				end = n
+			}
+			o := ev(ex.sub2, map[string]any{"i": system.Integer(st), "n": system.Integer(ln)})
+			if !(o.kind == "string" && o.s == string(rs[st:end])) {
+				fail("substring", "start="+posClass(st, n)+",len="+posClass(ln, n-st), "got="+o.disc()+"|value!=ref", core.W{"start": st, "len": ln, "got_len": len([]rune(o.s))})
+			}
+		}
+		if o := ev(ex.concatLaw, map[string]any{"i": system.Integer(st)}); !(o.kind == "string" && o.s == s) {
+			fail("law:substring(0,k)&substring(k)=s", "k="+posClass(st, n), "got="+o.disc(), core.W{"k": st})
+		}
+	}
+	// patterns: the ends, the middle, the whole string, the string with one more character, a run that occurs only once
+	// (the last two characters followed by nothing), an absent character, the recurring unit
+	pats := [][]rune{rs[:1], rs[n-1:], rs[n-2:], rs[n/2-1 : n/2+2], rs, append(append([]rune{}, rs...), 'x'), []rune("Z"), []rune("abc"), []rune("ca"), rs[1:], rs[:n-1], []rune("é"), []rune("😀"), {}}
+	for pi, tr := range pats {
+		t := string(tr)
+		idx := runeIndex(rs, tr)
+		pc := fmt.Sprintf("pattern#%d", pi)
+		env := func() map[string]any { return map[string]any{"t": system.String(t)} }
+		oi := ev(ex.indexOf, env())
+		if !(oi.kind == "int" && oi.i == int64(idx)) {
+			fail("indexOf", pc, "got="+oi.disc()+"|value!=ref", core.W{"pattern_len": len(tr), "got": oi.res.String(), "want": idx})
+		}
+		if o := ev(ex.contains, env()); !(o.kind == "bool" && o.b == (idx >= 0)) {
+			fail("contains", pc, "got="+o.disc()+"|value!=ref", core.W{"pattern_len": len(tr), "got": o.res.String(), "want": idx >= 0})
+		}
+		ws := len(tr) <= len(rs) && runeIndex(rs[:len(tr)], tr) == 0
+		if o := ev(ex.starts, env()); !(o.kind == "bool" && o.b == ws) {
+			fail("startsWith", pc, "got="+o.disc()+"|value!=ref", core.W{"pattern_len": len(tr), "got": o.res.String(), "want": ws})
+		}
+		we := len(tr) <= len(rs) && runeIndex(rs[len(rs)-len(tr):], tr) == 0
+		if o := ev(ex.ends, env()); !(o.kind == "bool" && o.b == we) {
+			fail("endsWith", pc, "got="+o.disc()+"|value!=ref", core.W{"pattern_len": len(tr), "got": o.res.String(), "want": we})
+		}
+		if len(tr) > 0 && len(tr) < 4 {
+			for _, u := range []string{"", "é", "xyz"} {
+				want := string(runeReplace(rs, tr, []rune(u)))
+				if o := ev(ex.replace, map[string]any{"t": system.String(t), "u": system.String(u)}); !(o.kind == "string" && o.s == want) {
+					fail("replace", pc, "got="+o.disc()+"|value!=ref", core.W{"pattern": t, "substitution": u, "got_len": len([]rune(o.s)), "want_len": len([]rune(want))})
+				}
+			}
+		}
+	}
+}
+
 func maxI(a, b int64) int64 {
 	if a > b {
 		return a
@@ -568,6 +716,12 @@ func init() {
 						r.State("recv|fhir.code.bound")
 					}
 					r.NontrivialByConstruction(int64(vals.Len()) * 13)
+				}},
+				{Name: "long-strings", N: len(c14LongCases(tier)), Note: "strings of 15..1025 (thorough: ..65537) characters around powers of two x 6 textures (ASCII, one non-ASCII character first / middle / last, all non-ASCII, a character beyond the BMP last): length, toChars, upper, lower, substring at 9 starts x 9 lengths, the concatenation law, search functions for 14 patterns (ends, middle, whole, whole+1, absent, recurring), replace", Run: func(i int, r *core.Rec) {
+					ex := c14Compile()
+					before := r.Evals
+					c14LongOne(r, ex, c14LongCases(tier)[i])
+					r.NontrivialByConstruction(r.Evals - before)
 				}},
 				{Name: "literal-receivers", N: len(c14LiteralStrings()), Note: "strings of length 0..2 over the alphabet extended by the white-space code points U+00A0, U+0085, U+2028, U+3000 and a tab, written as string literals (raw and escaped): what stands between the quotes is the string", Run: func(i int, r *core.Rec) {
 					s := c14LiteralStrings()[i]
